@@ -68,6 +68,7 @@ func NewFetcher(ipfs coreiface.CoreAPI, options *FetchOptions) *Fetcher {
 	}
 
 	muProcess := sync.RWMutex{}
+	verifFetcherLock(&muProcess)
 
 	// create Fetcher
 	return &Fetcher{
